@@ -48,6 +48,11 @@ let rec expr_of (x : sx) : expr =
   | L (A "arr" :: es) -> EArr (List.map expr_of es)
   | L [A "at"; a; i] -> EAt (expr_of a, expr_of i)
   | L [A "len"; a] -> ELen (expr_of a)
+  | L [A "s1"; A o; a] -> EStr1 ((match o with "len" -> SLen | "ofint" -> SOfInt | _ -> failwith ("sop1 " ^ o)), expr_of a)
+  | L [A "s2"; A o; a; b] ->
+      EStr2 ((match o with "plus" -> SPlus | "concat" -> SConcat | "equals" -> SEquals | "contains" -> SContains | "charat" -> SCharAt
+              | _ -> failwith ("sop2 " ^ o)), expr_of a, expr_of b)
+  | L [A "substr"; a; b; c] -> ESubstr (expr_of a, expr_of b, expr_of c)
   | _ -> failwith "expr"
 let rec stmt_of (x : sx) : stmt =
   match x with
@@ -93,6 +98,10 @@ let rec sx_expr (e : expr) : ostring =
   | EArr es -> "(arr" ^ String.concat "" (List.map (fun a -> " " ^ sx_expr a) es) ^ ")"
   | EAt (a, i) -> "(at " ^ sx_expr a ^ " " ^ sx_expr i ^ ")"
   | ELen a -> "(len " ^ sx_expr a ^ ")"
+  | EStr1 (o, a) -> "(s1 " ^ (match o with SLen -> "len" | SOfInt -> "ofint") ^ " " ^ sx_expr a ^ ")"
+  | EStr2 (o, a, b) -> "(s2 " ^ (match o with SPlus -> "plus" | SConcat -> "concat" | SEquals -> "equals" | SContains -> "contains" | SCharAt -> "charat")
+                       ^ " " ^ sx_expr a ^ " " ^ sx_expr b ^ ")"
+  | ESubstr (a, b, c) -> "(substr " ^ sx_expr a ^ " " ^ sx_expr b ^ " " ^ sx_expr c ^ ")"
 let rec sx_stmt (s : stmt) : ostring =
   match s with
   | SSkip -> "(skip)"
@@ -127,6 +136,9 @@ let rec paths_expr (e : expr) (pre : int list) (acc : int list list ref) : unit 
   | EArr es -> List.iteri (fun i a -> paths_expr a (i :: pre) acc) es
   | EAt (a, i) -> paths_expr a (0 :: pre) acc; paths_expr i (1 :: pre) acc
   | ELen a -> paths_expr a (0 :: pre) acc
+  | EStr1 (_, a) -> paths_expr a (0 :: pre) acc
+  | EStr2 (_, a, b) -> paths_expr a (0 :: pre) acc; paths_expr b (1 :: pre) acc
+  | ESubstr (a, b, c) -> paths_expr a (0 :: pre) acc; paths_expr b (1 :: pre) acc; paths_expr c (2 :: pre) acc
   | _ -> ()
 let rec paths_stmt (s : stmt) (pre : int list) (acc : int list list ref) : unit =
   acc := List.rev pre :: !acc;
@@ -156,6 +168,9 @@ let rec max_e (e : expr) : int =
   | EArr es -> List.fold_left (fun m a -> max m (max_e a)) 0 es
   | EAt (a, i) -> max (max_e a) (max_e i)
   | ELen a -> max_e a
+  | EStr1 (_, a) -> max_e a
+  | EStr2 (_, a, b) -> max (max_e a) (max_e b)
+  | ESubstr (a, b, c) -> max (max_e a) (max (max_e b) (max_e c))
   | _ -> 0
 let rec max_s (s : stmt) : int =
   match s with
